@@ -4,7 +4,7 @@ from . import c03_c06_lib as lib
 
 MODULE = "StorageModel.Properties.C06"
 THEOREMS = ["inv_init", "inv_step", "inv_tx", "inv_reachable", "absent_no_trace", "delete_no_trace",
-            "delete_no_trace_owner", "cascade_no_trace", "boss_cascade_no_trace", "tx_removed_no_trace", "delete_forgets", "recreate_fresh", "recreate_accepted_iff",
+            "delete_no_trace_owner", "cascade_no_trace", "boss_cascade_no_trace", "tx_removed_no_trace", "delete_terminates", "delete_forgets", "recreate_fresh", "recreate_accepted_iff", "recreate_absent_accepted_iff",
             "recreate_as_if_never_existed", "child_create_over_parent_reindexes", "child_create_over_parent_no_trace",
             "child_create_empty_name_rejected", "rc_and_child_links_no_trace", "cascade_witness", "cycle_witness", "extended_child_witness"]
 
@@ -86,21 +86,28 @@ def extra_cmp(a, b, spec_mode):
 
 
 RULE = ("random histories (seeded) of 6-25 (quick) / 6-41 (thorough) transactions with 1-4 operations each over stores "
-        "A (3-4 ids), its child store A1 and B (3 ids): create A / create through the child store with 0-2 child-owned "
-        "links (a fifth of them over an existing plain parent) / update and patch (17 checker subsets of name, alias, "
-        "roles, owner, dep, groups) / delete through parent or child store / ref-counted link increments, decrements and "
-        "SetLinkCount 0-3 (12 % of the operations, so counts of 2 and more are common) / create, update, delete B "
-        "(restricted while referenced through owner, cascading to the dependants through dep); owners, deps, groups "
-        "and pals mostly existing, sometimes missing; every history ends in a delete in its own transaction; after every "
-        "committed transaction boltz.ValidateDeleted and an independent byte scan of the dump run for every entity id "
-        "that existed before it and not after it (cascade victims included); ids are re-created constantly (small "
-        "universe); non-trivial = at least one validated committed delete after >= 3 other committed transactions; "
-        "distinct = distinct case line")
+        "A (3-6 ids, one of them byte-equal to an id of B), its plain child store A1, its EXTENDED child store A2 and B "
+        "(3 ids): create A / create through A1 with 0-2 child-owned links / create through A2 with a colour (a fifth resp. "
+        "a quarter of the child-store creates over an existing parent) / update and patch through A (20 checker subsets of "
+        "name, alias, roles, owner, dep, groups, boss) and through A2 (12 subsets incl. colour; a tenth without ext2 data) / "
+        "delete through A, A1 or A2 / boss self references: half of the written entities name a boss (an existing entity, "
+        "itself, rarely a missing one), so chains, self loops and longer cycles arise and deletes cascade over them; "
+        "1 transaction in 16 is 'delete x, create x again under boss y, delete y' / ref-counted link increments, "
+        "decrements and SetLinkCount 0-3 (12 % of the operations) / create, update, delete B (restricted while referenced "
+        "through owner, cascading to the dependants through dep, whose own boss cascades run inside it); owners, deps, "
+        "groups, pals and bosses mostly existing, sometimes missing; every history ends in a delete in its own transaction, "
+        "half of the time of an entity somebody reports to; after every committed transaction boltz.ValidateDeleted and an "
+        "independent byte scan of the dump run for every entity id that existed before it and not after it (cascade "
+        "victims included); ids are re-created constantly (small universe); non-trivial = at least one validated committed "
+        "delete after >= 3 other committed transactions; distinct = distinct case line")
 
 ASSUMPTIONS = [
     "bbolt: buckets are finite maps, a transaction applies all of its writes or none (modelled)",
-    "ids are not confusable with bucket names, stored values or ids of the other store (hypothesis NoClash of delete_no_trace; "
-    "true of the generated universe: ids a-d / p-r, values x y zq m nq)",
+    "ids are not byte-confusable with bucket names, stored values or other ids (hypothesis NoClash of the no-trace theorems; "
+    "evaluated by the driver for every validated delete; true of the generated universe: ids a-e p / p-r, values x y zq m nq). "
+    "That no stored reference (owner, dep, boss) names the absent id is NOT part of the hypothesis: it is proved",
+    "the recursion of the cascading delete is bounded by a fuel of (number of A entities + 1) in the model; that it never "
+    "runs out in a consistent state is a theorem (delete_terminates)",
     "SetLinks is modelled by its effect (remove what is not requested, add what is missing); its merge loop is C05's subject",
 ]
 
